@@ -74,3 +74,126 @@ mod k {
         assert!(i >= 0.0, "C20.idir.nonneg");
     }
 }
+
+#[cfg(verif_native)]
+#[path = "support.rs"]
+mod support;
+
+// =====================================================================================================
+// Native bounded obligations: solar geometry against spherical astronomy, radiation identities
+// =====================================================================================================
+#[cfg(verif_native)]
+mod n {
+    use super::support::*;
+    use crate::solar::*;
+    use crate::SolarRadiation;
+
+    fn rad(d: f64) -> f64 {
+        d.to_radians()
+    }
+
+    fn wrap180(mut a: f64) -> f64 {
+        while a > 180.0 {
+            a -= 360.0;
+        }
+        while a < -180.0 {
+            a += 360.0;
+        }
+        a
+    }
+
+    /// Sun direction (east, north, up) from latitude, declination and hour angle (degrees; hour angle positive in the
+    /// morning, as hourangle_from_tsol defines it)
+    fn sun_vec(lat: f64, decl: f64, w: f64) -> (f64, f64, f64) {
+        let (sp, cp) = (rad(lat).sin(), rad(lat).cos());
+        let (sd, cd) = (rad(decl).sin(), rad(decl).cos());
+        let (sw, cw) = (rad(w).sin(), rad(w).cos());
+        (cd * sw, cp * sd - sp * cd * cw, sp * sd + cp * cd * cw)
+    }
+
+    #[test]
+    fn n_c20_sun_position() {
+        drive("C20.sunpos", "altitude_sol_from_data / azimuth_sol_from_data / sun_position vs spherical astronomy: latitude -66..66 step 11, declination {-23.45,-10,0,10,23.45}, hour angle -172.5..172.5 step 7.5; sun between 1 and 85 degrees above the horizon", |c| {
+            let lat = -66.0 + 11.0 * c.pick(13) as f64;
+            let decl = c.of(&[-23.45f64, -10.0, 0.0, 10.0, 23.45]);
+            let w = -172.5 + 7.5 * c.pick(47) as f64;
+            c.note(format!("lat {} decl {} hour angle {}", lat, decl, w));
+            let (e, nrt, up) = sun_vec(lat, decl, w);
+            let alt = up.asin().to_degrees();
+            let got_alt = altitude_sol_from_data(decl as f32, w as f32, lat as f32) as f64;
+            if alt >= 0.01 {
+                c.check("C20.sunpos.altitude", (got_alt - alt).abs() <= 0.05, || format!("altitude {} want {}", got_alt, alt));
+            } else {
+                c.check("C20.sunpos.altitude.below_horizon", got_alt == 0.0, || format!("altitude {} for a sun below the horizon ({})", got_alt, alt));
+            }
+            if alt >= 1.0 && alt <= 85.0 {
+                // azimuth from south, east positive
+                let az = e.atan2(-nrt).to_degrees();
+                let got = azimuth_sol_from_data(decl as f32, w as f32, got_alt as f32, lat as f32) as f64;
+                c.check("C20.sunpos.azimuth", wrap180(got - az).abs() <= 0.5, || format!("azimuth {} want {} (altitude {})", got, az, alt));
+                let sp = sun_position(decl as f32, w as f32, crate::Location { latitude: lat as f32, longitude: 0.0, tz: 0 });
+                c.check("C20.sunpos.sun_position", (sp.altitude as f64 - alt).abs() <= 0.05 && wrap180(sp.azimuth as f64 - az).abs() <= 0.5, || format!("sun_position {:?} want alt {} az {}", (sp.altitude, sp.azimuth), alt, az));
+                c.nontrivial(format!("{} {} {}", lat, decl, w));
+            }
+            c.sample(|| format!("lat {} decl {} w {} -> alt {} (want {})", lat, decl, w, got_alt, alt));
+        });
+    }
+
+    #[test]
+    fn n_c20_incidence() {
+        drive("C20.incidence", "angle_sol_surf vs the angle between the sun direction and the outward normal (tilt 0 = facing up, 90 = vertical; azimuth S=0, E=+90): latitude {-35,0,28.3,40.7,60}, declination {-23.45,0,23.45}, hour angle step 15, tilt {0,30,90,135,180}, azimuth step 45", |c| {
+            let lat = c.of(&[-35.0f64, 0.0, 28.3, 40.7, 60.0]);
+            let decl = c.of(&[-23.45f64, 0.0, 23.45]);
+            let w = -165.0 + 15.0 * c.pick(23) as f64;
+            let tilt = c.of(&[0.0f64, 30.0, 90.0, 135.0, 180.0]);
+            let saz = -180.0 + 45.0 * c.pick(8) as f64;
+            c.note(format!("lat {} decl {} w {} tilt {} surface azimuth {}", lat, decl, w, tilt, saz));
+            let (e, nrt, up) = sun_vec(lat, decl, w);
+            // outward normal: horizontal part points south turned towards east by the azimuth
+            let n = (rad(tilt).sin() * rad(saz).sin(), -rad(tilt).sin() * rad(saz).cos(), rad(tilt).cos());
+            let cosang = (e * n.0 + nrt * n.1 + up * n.2).max(-1.0).min(1.0);
+            let want = cosang.acos().to_degrees();
+            let got = angle_sol_surf(decl as f32, w as f32, lat as f32, tilt as f32, saz as f32) as f64;
+            // acos is ill-conditioned at the ends; compare cosines there
+            let ok = (got - want).abs() <= 0.1 || (rad(got).cos() - cosang).abs() <= 1e-5;
+            c.check("C20.incidence", ok, || format!("incidence angle {} want {}", got, want));
+            c.nontrivial(format!("{} {} {} {} {}", lat, decl, w, tilt, saz));
+            c.sample(|| format!("lat {} decl {} w {} tilt {} az {} -> {} (want {})", lat, decl, w, tilt, saz, got, want));
+        });
+    }
+
+    #[test]
+    fn n_c20_radiation_identities() {
+        drive("C20.radiation", "radiation_for_surface: latitude {28.3,40.7}, day {15,100,172,266,355}, solar hour 5..20, horizontal input (beam,diffuse) in {(500,100),(0,80),(850,60),(0,0)}, albedo {0.2,0.5}: horizontal surface conserves the input (sun >= 6 degrees), downward surface gets albedo x global, beam never negative for 6 tilts x 8 azimuths", |c| {
+            let lat = c.of(&[28.3f32, 40.7]);
+            let nday = c.of(&[15u32, 100, 172, 266, 355]);
+            let hour = 5.0 + c.pick(16) as f32;
+            let (dir, dif) = c.of(&[(500.0f32, 100.0f32), (0.0, 80.0), (850.0, 60.0), (0.0, 0.0)]);
+            let albedo = c.of(&[0.2f32, 0.5]);
+            c.note(format!("lat {} day {} hour {} beam {} diffuse {} albedo {}", lat, nday, hour, dir, dif, albedo));
+            let decl = declination_from_nday(nday);
+            let w = hourangle_from_tsol(hour);
+            let alt = altitude_sol_from_data(decl, w, lat);
+            let g = SolarRadiation { dir, dif };
+            let hz = radiation_for_surface(nday, hour, g, lat, 0.0, 0.0, albedo);
+            if alt >= 6.0 {
+                let (got, want) = (hz.dir + hz.dif, dir + dif);
+                c.check("C20.radiation.horizontal", (got - want).abs() <= 0.01 * want + 0.01, || format!("horizontal surface receives {} but the horizontal input is {} (altitude {})", got, want, alt));
+                c.nontrivial(format!("{} {} {} {} {}", lat, nday, hour, dir, dif));
+            }
+            if alt >= 0.5 {
+                let dn = radiation_for_surface(nday, hour, g, lat, 180.0, 0.0, albedo);
+                let (got, want) = (dn.dir + dn.dif, albedo * (dir + dif));
+                c.check("C20.radiation.downward", (got - want).abs() <= 0.01 * want + 0.01, || format!("downward surface receives {} want albedo x global = {}", got, want));
+            }
+            for tilt in [0.0f32, 45.0, 90.0, 120.0, 180.0, 30.0] {
+                for k in 0..8 {
+                    let az = -180.0 + 45.0 * k as f32;
+                    let r = radiation_for_surface(nday, hour, g, lat, tilt, az, albedo);
+                    c.check("C20.radiation.beam_nonneg", r.dir >= 0.0, || format!("beam {} on tilt {} azimuth {}", r.dir, tilt, az));
+                }
+            }
+            c.sample(|| format!("lat {} day {} hour {} -> altitude {} horizontal {:?}", lat, nday, hour, alt, (hz.dir, hz.dif)));
+        });
+    }
+}
